@@ -195,6 +195,8 @@ pub struct Engine {
     pub totals_prop: &'static str,
     pub known_c02_sweep: bool,
     pub end_run: bool,
+    /// first step at which a panic outside the C16 domain happened (C15 twins stop being comparable there)
+    pub first_ood_step: Option<usize>,
     /// kind of the previous operation (drives follow-up biases of the generator)
     pub last_kind: &'static str,
     /// C15 pairs every run with a no-oracle twin; oracle-side faults would make the twins diverge by construction
@@ -339,6 +341,7 @@ impl Engine {
             totals_prop: "C04",
             known_c02_sweep: false,
             end_run: false,
+            first_ood_step: None,
             last_kind: "",
             no_oracle_faults: false,
         }
@@ -426,6 +429,9 @@ impl Engine {
                 self.v("C16", "panic", format!("{}::{} panicked: {} | input: {}", p.contract, p.entry, p.msg, p.input));
             } else {
                 self.stats.panics_out_of_domain += 1;
+                if self.first_ood_step.is_none() {
+                    self.first_ood_step = Some(self.step_no);
+                }
             }
         }
     }
@@ -645,6 +651,14 @@ impl Engine {
         } else if self.m.swept > 0 {
             *self.stats.known.entry("C02 ownerless-stake sweep credits total_fees with tokens the contract does not hold").or_insert(0) += 1;
         }
+        // the same equation with (c) read from the contract's own records: refunded value that the
+        // contract no longer tracks as refundable can never be re-sent
+        if self.m.lost_cb.is_empty() && !self.m.reckless {
+            let q_ibc: i128 = post.queue.iter().filter(|p| p.denom == ibc && (p.status == "ack_failure" || p.status == "timed_out")).map(|p| p.amount as i128).sum();
+            if bal != owed_a + post.fees as i128 + q_ibc - unbacked {
+                self.vo("C02", "refundable_value_is_recorded", format!("contract holds {} but unwithdrawn batches {} + fees {} + transfers it records as refundable {} differ (truly refunded and not re-sent: {})", bal, owed_a, post.fees, q_ibc, refunded_ibc));
+            }
+        }
         if refunded_ibc < 0 && !self.m.reckless {
             self.vo("C07", "resent_more_than_refunded", format!("staked-asset re-sent exceeds refunded by {}", -refunded_ibc));
         }
@@ -659,6 +673,12 @@ impl Engine {
         let refunded_lst = self.refunded_not_resent(&lst);
         if own_lst != pend_total + refunded_lst.max(0) && !self.m.reckless {
             self.vo("C03", "own_lst_balance", format!("contract holds {} LST but pending batch has {} and refundable LST is {}", own_lst, pend_total, refunded_lst));
+        }
+        if self.m.lost_cb.is_empty() && !self.m.reckless {
+            let q_lst: i128 = post.queue.iter().filter(|p| p.denom == lst && (p.status == "ack_failure" || p.status == "timed_out")).map(|p| p.amount as i128).sum();
+            if own_lst != pend_total + q_lst {
+                self.vo("C03", "refundable_lst_is_recorded", format!("contract holds {} LST but the pending batch has {} and the LST transfers it records as refundable sum to {} (truly refunded and not re-sent: {})", own_lst, pend_total, q_lst, refunded_lst));
+            }
         }
         if refunded_lst < 0 && !self.m.reckless {
             self.vo("C07", "resent_more_than_refunded", format!("LST re-sent exceeds refunded by {}", -refunded_lst));
